@@ -9,7 +9,7 @@ ids=$(python3 -c "import json;print(' '.join(c['property_id'] for c in json.load
 for seed in $(seq $first $last); do
   for tier in $tiers; do
     for id in $ids; do
-      VERIF_SEED=$seed VERIF_NO_EVIDENCE=1 ./check $id $tier 2>&1 | grep -E "VIOLATION|oracle=|HARNESS|KNOWN-FINDING|$tier:" | cut -c1-400 | awk -v p="seed=$seed " '{print p $0}' | grep -v "KNOWN-FINDING" 
+      VERIF_SEED=$seed VERIF_NO_EVIDENCE=1 ./check $id $tier 2>&1 | grep -E -A4 "VIOLATION|HARNESS-ERROR|KNOWN-FINDING|$tier:" | cut -c1-600 | awk -v p="seed=$seed " '{print p $0}' | grep -v "KNOWN-FINDING" 
     done
   done
 done
